@@ -174,6 +174,16 @@ Theorem C06_allocate_never_panics : forall collector treasury power snap share,
 Proof. exact allocate_never_panics. Qed.
 Print Assumptions C06_allocate_never_panics.
 
+(* reward path: one staked denom is safe; caps summing to 1 over two denoms over-credit and the payout panics *)
+Theorem C06_credit_one_le_partial : forall reward cap, 0 <= reward < 2 ^ 200 -> 0 <= cap <= PREC ->
+  exists c, credit_one reward cap = Ok c /\ 0 <= c <= reward.
+Proof. exact credit_one_le. Qed.
+Print Assumptions C06_credit_one_le_partial.
+Theorem C06_overcredit_shortfall_refuted : exists reward cap1 cap2, cap1 + cap2 = PREC /\
+  credit_two reward cap1 cap2 = Ok (reward + 1) /\ pay_from_collector reward (reward + 1) = Panic "insufficient-funds".
+Proof. exact overcredit_shortfall_refuted. Qed.
+Print Assumptions C06_overcredit_shortfall_refuted.
+
 Theorem C06_upgrade_halt_only_when_due : forall due processed instate h skip,
   is_panic (upgrade_begin due processed instate h skip) = true -> due = true /\ processed = true.
 Proof. exact upgrade_halt_only_when_due. Qed.
@@ -195,7 +205,7 @@ Print Assumptions C06_chk_accepts_upgrade_halt.
    for and breaks C06_panic_sites_accounted. *)
 Definition covered_table : list (string * string * nat * string * list string) := [
   ("x/distributor/keeper.Keeper.AllocateTokens", "quo", 3%nat, "Halt.allocate: snap period and InflationPeriod divisors; InflationPeriod >= 2629800 by the validated network properties (C19), SnapPeriod comes from genesis only (default 1000) -- zero only with a broken genesis", []);
-  ("x/distributor/keeper.Keeper.AllocateTokensToValidator", "panic", 3%nat, "Halt.allocate / pay_from_collector: unreachable under allocate_never_panics' hypotheses (reward <= fees collected + inflation just minted)", []);
+  ("x/distributor/keeper.Keeper.AllocateTokensToValidator", "panic", 3%nat, "Halt.allocate / pay_from_collector: the payout itself is covered (allocate_never_panics) but REACHABLE once IncreasePoolRewards has paid an over-credit out of the collector first: finding AllocateTokensToValidator:insufficient-funds (C06_overcredit_shortfall_refuted)", []);
   ("x/feeprocessing/keeper.Keeper.ProcessExecutionFeeReturn", "panic", 1%nat, "Halt.pay_from_collector: reachable only if the fee collector cannot cover the refund (collector_shortfall_panics; depends on C04/C10 over-crediting) -- not reproduced", []);
   ("x/gov.processPoll", "panic", 2%nat, "Halt.process_quorum: reachable, finding processPoll:votes-gt-voters; GetPoll error unreachable (polls are never deleted)", []);
   ("x/gov.processProposal", "panic", 2%nat, "Halt.process_quorum (IsQuorum error => panic): reachable, findings votes-gt-voters / quorum-gt-1; the 'proposal was expected to exist' panic is unreachable (queue entries are written together with the proposal, proposals are never deleted)", []);
@@ -217,9 +227,9 @@ Definition audit_table : list (string * string * nat * string * list string) := 
   ("x/basket/keeper.Keeper.AfterSlashStakingPool", "sub", 1%nat, "sdk.Int / time subtraction or Coins.Sub guarded by an error-returning balance check before it", ["8376b1e3fbd41765"]);
   ("x/basket/keeper.Keeper.CreateBasket", "index", 2%nat, "map lookup or index bounded by the enclosing loop / length check", ["b24b0406144f9784"]);
   ("x/basket/keeper.Keeper.EditBasket", "index", 6%nat, "map lookup or index bounded by the enclosing loop / length check", ["847a92afc23028ca"]);
-  ("x/basket/keeper.Keeper.GetAllBaskets", "must", 1%nat, "decodes bytes (or re-parses an address) that this module stored itself with the matching Marshal; layer2 TeamReserve / basket denoms validated at creation -- audited by kind", []);
-  ("x/basket/keeper.Keeper.GetBasketById", "must", 1%nat, "decodes bytes (or re-parses an address) that this module stored itself with the matching Marshal; layer2 TeamReserve / basket denoms validated at creation -- audited by kind", []);
-  ("x/basket/keeper.Keeper.SetBasket", "must", 1%nat, "decodes bytes (or re-parses an address) that this module stored itself with the matching Marshal; layer2 TeamReserve / basket denoms validated at creation -- audited by kind", []);
+  ("x/basket/keeper.Keeper.GetAllBaskets", "must", 1%nat, "decodes bytes (or re-parses an address) that this module stored itself with the matching Marshal -- audited by kind", []);
+  ("x/basket/keeper.Keeper.GetBasketById", "must", 1%nat, "decodes bytes (or re-parses an address) that this module stored itself with the matching Marshal -- audited by kind", []);
+  ("x/basket/keeper.Keeper.SetBasket", "must", 1%nat, "decodes bytes (or re-parses an address) that this module stored itself with the matching Marshal -- audited by kind", []);
   ("x/basket/types.Basket.RatesAndIndexes", "index", 2%nat, "map lookup or index bounded by the enclosing loop / length check", ["a6df3f44802b9f4d"]);
   ("x/collectives.ApplyCollectiveRemoveProposalHandler.AllowedAddresses", "assert", 1%nat, "proposal content assertion inside its own handler: the router dispatches on ProposalType() of the same content, so the dynamic type matches", []);
   ("x/collectives.ApplyCollectiveRemoveProposalHandler.Apply", "assert", 1%nat, "proposal content assertion inside its own handler: the router dispatches on ProposalType() of the same content, so the dynamic type matches", []);
@@ -240,14 +250,14 @@ Definition audit_table : list (string * string * nat * string * list string) := 
   ("x/collectives.ApplyCollectiveUpdateProposalHandler.VoteEnactment", "assert", 1%nat, "proposal content assertion inside its own handler: the router dispatches on ProposalType() of the same content, so the dynamic type matches", []);
   ("x/collectives.ApplyCollectiveUpdateProposalHandler.VotePeriod", "assert", 1%nat, "proposal content assertion inside its own handler: the router dispatches on ProposalType() of the same content, so the dynamic type matches", []);
   ("x/collectives/keeper.Keeper.AllowedAddresses", "index", 4%nat, "map lookup or index bounded by the enclosing loop / length check", ["0b9ec4d125f4c03f"]);
-  ("x/collectives/keeper.Keeper.GetAllCollectives", "must", 1%nat, "decodes bytes (or re-parses an address) that this module stored itself with the matching Marshal; layer2 TeamReserve / basket denoms validated at creation -- audited by kind", []);
-  ("x/collectives/keeper.Keeper.GetCollective", "must", 1%nat, "decodes bytes (or re-parses an address) that this module stored itself with the matching Marshal; layer2 TeamReserve / basket denoms validated at creation -- audited by kind", []);
-  ("x/collectives/keeper.Keeper.GetCollectiveContributer", "must", 1%nat, "decodes bytes (or re-parses an address) that this module stored itself with the matching Marshal; layer2 TeamReserve / basket denoms validated at creation -- audited by kind", []);
-  ("x/collectives/keeper.Keeper.GetCollectiveContributers", "must", 1%nat, "decodes bytes (or re-parses an address) that this module stored itself with the matching Marshal; layer2 TeamReserve / basket denoms validated at creation -- audited by kind", []);
+  ("x/collectives/keeper.Keeper.GetAllCollectives", "must", 1%nat, "decodes bytes (or re-parses an address) that this module stored itself with the matching Marshal -- audited by kind", []);
+  ("x/collectives/keeper.Keeper.GetCollective", "must", 1%nat, "decodes bytes (or re-parses an address) that this module stored itself with the matching Marshal -- audited by kind", []);
+  ("x/collectives/keeper.Keeper.GetCollectiveContributer", "must", 1%nat, "decodes bytes (or re-parses an address) that this module stored itself with the matching Marshal -- audited by kind", []);
+  ("x/collectives/keeper.Keeper.GetCollectiveContributers", "must", 1%nat, "decodes bytes (or re-parses an address) that this module stored itself with the matching Marshal -- audited by kind", []);
   ("x/collectives/keeper.Keeper.IsAllowedAddress", "index", 2%nat, "map lookup or index bounded by the enclosing loop / length check", ["e9b62f7e6811bcd1"]);
   ("x/collectives/keeper.Keeper.SendDonation", "sub", 1%nat, "sdk.Int / time subtraction or Coins.Sub guarded by an error-returning balance check before it", ["9c668a1e14930919"]);
-  ("x/collectives/keeper.Keeper.SetCollective", "must", 1%nat, "decodes bytes (or re-parses an address) that this module stored itself with the matching Marshal; layer2 TeamReserve / basket denoms validated at creation -- audited by kind", []);
-  ("x/collectives/keeper.Keeper.WithdrawCollective", "must", 1%nat, "decodes bytes (or re-parses an address) that this module stored itself with the matching Marshal; layer2 TeamReserve / basket denoms validated at creation -- audited by kind", []);
+  ("x/collectives/keeper.Keeper.SetCollective", "must", 1%nat, "decodes bytes (or re-parses an address) that this module stored itself with the matching Marshal -- audited by kind", []);
+  ("x/collectives/keeper.Keeper.WithdrawCollective", "must", 1%nat, "decodes bytes (or re-parses an address) that this module stored itself with the matching Marshal -- audited by kind", []);
   ("x/collectives/keeper.Keeper.WithdrawCollective", "sub", 3%nat, "sdk.Int / time subtraction or Coins.Sub guarded by an error-returning balance check before it", ["b96fa395ac90967b"]);
   ("x/collectives/keeper.calcPortion", "newcoin", 1%nat, "amount is a product/fraction of non-negative stored amounts; denom validated at creation", ["ad8967f7d6583c04"]);
   ("x/distributor/keeper.Keeper.AllocateTokens", "sub", 4%nat, "guarded by IsAllGTE / sdk.Int.Sub does not panic", ["c0e9761d3225cd13"]);
@@ -255,20 +265,20 @@ Definition audit_table : list (string * string * nat * string * list string) := 
   ("x/distributor/keeper.Keeper.AllocateTokens", "panic", 2%nat, "unreachable: minting to the mint module / transfer of the amount just minted", ["c0e9761d3225cd13"]);
   ("x/distributor/keeper.Keeper.BeginBlocker", "panic", 1%nat, "unreachable: ConsAddr strings written by SetValidatorVote itself", ["8b226f91bd9fc38c"]);
   ("x/distributor/keeper.Keeper.GetFeesTreasury", "panic", 1%nat, "unreachable: parses the string written by SetFeesTreasury", ["0172156421030cf3"]);
-  ("x/distributor/keeper.Keeper.GetPeriodicSnapshot", "must", 1%nat, "decodes bytes (or re-parses an address) that this module stored itself with the matching Marshal; layer2 TeamReserve / basket denoms validated at creation -- audited by kind", []);
+  ("x/distributor/keeper.Keeper.GetPeriodicSnapshot", "must", 1%nat, "decodes bytes (or re-parses an address) that this module stored itself with the matching Marshal -- audited by kind", []);
   ("x/distributor/keeper.Keeper.GetPreviousProposerConsAddr", "panic", 1%nat, "unreachable after height 1 (set in every BeginBlock); an import at initial height > 1 without the key: C12", ["ed1655397e46c3fe"]);
-  ("x/distributor/keeper.Keeper.GetYearStartSnapshot", "must", 1%nat, "decodes bytes (or re-parses an address) that this module stored itself with the matching Marshal; layer2 TeamReserve / basket denoms validated at creation -- audited by kind", []);
+  ("x/distributor/keeper.Keeper.GetYearStartSnapshot", "must", 1%nat, "decodes bytes (or re-parses an address) that this module stored itself with the matching Marshal -- audited by kind", []);
   ("x/distributor/keeper.Keeper.InflationPossible", "div", 1%nat, "literal divisor arithmetic on constants", ["a3541ac22d30b54c"]);
   ("x/distributor/keeper.Keeper.InflationPossible", "sub", 1%nat, "sdk.Int/Dec Sub: no panic", ["a3541ac22d30b54c"]);
   ("x/distributor/keeper.Keeper.InflationPossible", "quo", 1%nat, "guarded by the zero-supply check above it", ["a3541ac22d30b54c"]);
-  ("x/distributor/keeper.Keeper.SetPeriodicSnapshot", "must", 1%nat, "decodes bytes (or re-parses an address) that this module stored itself with the matching Marshal; layer2 TeamReserve / basket denoms validated at creation -- audited by kind", []);
-  ("x/distributor/keeper.Keeper.SetYearStartSnapshot", "must", 1%nat, "decodes bytes (or re-parses an address) that this module stored itself with the matching Marshal; layer2 TeamReserve / basket denoms validated at creation -- audited by kind", []);
+  ("x/distributor/keeper.Keeper.SetPeriodicSnapshot", "must", 1%nat, "decodes bytes (or re-parses an address) that this module stored itself with the matching Marshal -- audited by kind", []);
+  ("x/distributor/keeper.Keeper.SetYearStartSnapshot", "must", 1%nat, "decodes bytes (or re-parses an address) that this module stored itself with the matching Marshal -- audited by kind", []);
   ("x/evidence.BeginBlocker", "assert", 1%nat, "proposal content assertion inside its own handler: the router dispatches on ProposalType() of the same content, so the dynamic type matches", []);
-  ("x/evidence/keeper.Keeper.GetEvidence", "must", 1%nat, "decodes bytes (or re-parses an address) that this module stored itself with the matching Marshal; layer2 TeamReserve / basket denoms validated at creation -- audited by kind", []);
+  ("x/evidence/keeper.Keeper.GetEvidence", "must", 1%nat, "decodes bytes (or re-parses an address) that this module stored itself with the matching Marshal -- audited by kind", []);
   ("x/evidence/keeper.Keeper.HandleEquivocationEvidence", "sub", 1%nat, "time.Sub: no panic", ["c34d6b2e85a9d21f"]);
   ("x/evidence/keeper.Keeper.HandleEquivocationEvidence", "panic", 1%nat, "unreachable: signing info is created when the validator joins (AfterValidatorJoined hook)", ["c34d6b2e85a9d21f"]);
   ("x/evidence/keeper.Keeper.MustMarshalEvidence", "panic", 1%nat, "unreachable: guards a store / codec invariant (record written together with its index)", ["291d07486925668f"]);
-  ("x/evidence/keeper.Keeper.SetEvidence", "must", 1%nat, "decodes bytes (or re-parses an address) that this module stored itself with the matching Marshal; layer2 TeamReserve / basket denoms validated at creation -- audited by kind", []);
+  ("x/evidence/keeper.Keeper.SetEvidence", "must", 1%nat, "decodes bytes (or re-parses an address) that this module stored itself with the matching Marshal -- audited by kind", []);
   ("x/evidence/types.Equivocation.Hash", "panic", 1%nat, "unreachable: guards a store / codec invariant (record written together with its index)", ["73121bb46c56a335"]);
   ("x/evidence/types.FromABCIEvidence", "panic", 1%nat, "unreachable: guards a store / codec invariant (record written together with its index)", ["0df4eb387dff7d3c"]);
   ("x/feeprocessing/keeper.Keeper.ProcessExecutionFeeReturn", "newcoin", 1%nat, "amount is a product/fraction of non-negative stored amounts; denom validated at creation", ["7b1d547a1ad857eb"]);
@@ -298,39 +308,39 @@ Definition audit_table : list (string * string * nat * string * list string) := 
   ("x/gov.processPoll", "index", 1%nat, "map lookup or index bounded by the enclosing loop / length check", ["4461099a7de2d663"; "6a3c84943a00324c"]);
   ("x/gov.processProposal", "index", 2%nat, "map lookup or index bounded by the enclosing loop / length check", ["4d5bc7af1c733b90"; "8627ca39f0fbd1bc"]);
   ("x/gov/keeper.CheckIfAllowedPermission", "index", 4%nat, "map lookup or index bounded by the enclosing loop / length check", ["452c333de081d1b3"]);
-  ("x/gov/keeper.Keeper.BlacklistRolePermission", "must", 1%nat, "decodes bytes (or re-parses an address) that this module stored itself with the matching Marshal; layer2 TeamReserve / basket denoms validated at creation -- audited by kind", []);
+  ("x/gov/keeper.Keeper.BlacklistRolePermission", "must", 1%nat, "decodes bytes (or re-parses an address) that this module stored itself with the matching Marshal -- audited by kind", []);
   ("x/gov/keeper.Keeper.EnsureOldUniqueKeysNotRemoved", "index", 2%nat, "map lookup or index bounded by the enclosing loop / length check", ["651239798ba4401d"]);
   ("x/gov/keeper.Keeper.EnsureUniqueKeys", "index", 6%nat, "map lookup or index bounded by the enclosing loop / length check", ["dc3961420029da15"]);
-  ("x/gov/keeper.Keeper.GetAllCouncilors", "must", 1%nat, "decodes bytes (or re-parses an address) that this module stored itself with the matching Marshal; layer2 TeamReserve / basket denoms validated at creation -- audited by kind", []);
-  ("x/gov/keeper.Keeper.GetAllIdentityRecords", "must", 1%nat, "decodes bytes (or re-parses an address) that this module stored itself with the matching Marshal; layer2 TeamReserve / basket denoms validated at creation -- audited by kind", []);
+  ("x/gov/keeper.Keeper.GetAllCouncilors", "must", 1%nat, "decodes bytes (or re-parses an address) that this module stored itself with the matching Marshal -- audited by kind", []);
+  ("x/gov/keeper.Keeper.GetAllIdentityRecords", "must", 1%nat, "decodes bytes (or re-parses an address) that this module stored itself with the matching Marshal -- audited by kind", []);
   ("x/gov/keeper.Keeper.GetAverageVotesSlash", "quo", 1%nat, "guarded: returns zero when there is no Yes vote (totalCount == 0) before dividing by the Yes-vote count; exercised by the gov-vote-patterns histories (every vote pattern, run past the enactment end)", ["b15566c2f50370ff"]);
-  ("x/gov/keeper.Keeper.GetExecutionFee", "must", 1%nat, "decodes bytes (or re-parses an address) that this module stored itself with the matching Marshal; layer2 TeamReserve / basket denoms validated at creation -- audited by kind", []);
-  ("x/gov/keeper.Keeper.GetNetworkActorByAddress", "must", 1%nat, "decodes bytes (or re-parses an address) that this module stored itself with the matching Marshal; layer2 TeamReserve / basket denoms validated at creation -- audited by kind", []);
+  ("x/gov/keeper.Keeper.GetExecutionFee", "must", 1%nat, "decodes bytes (or re-parses an address) that this module stored itself with the matching Marshal -- audited by kind", []);
+  ("x/gov/keeper.Keeper.GetNetworkActorByAddress", "must", 1%nat, "decodes bytes (or re-parses an address) that this module stored itself with the matching Marshal -- audited by kind", []);
   ("x/gov/keeper.Keeper.GetNetworkActorOrFail", "panic", 1%nat, "unreachable: permission/role index entries are written and removed together with the actor record (C07 refinement)", ["3368f8be08283503"]);
   ("x/gov/keeper.Keeper.GetNetworkActorsByAbsoluteWhitelistPermission", "index", 2%nat, "map lookup or index bounded by the enclosing loop / length check", ["b939a5d0ed92fdf9"]);
-  ("x/gov/keeper.Keeper.GetNetworkProperties", "must", 1%nat, "decodes bytes (or re-parses an address) that this module stored itself with the matching Marshal; layer2 TeamReserve / basket denoms validated at creation -- audited by kind", []);
-  ("x/gov/keeper.Keeper.GetPermissionsForRole", "must", 1%nat, "decodes bytes (or re-parses an address) that this module stored itself with the matching Marshal; layer2 TeamReserve / basket denoms validated at creation -- audited by kind", []);
-  ("x/gov/keeper.Keeper.GetPoll", "must", 1%nat, "decodes bytes (or re-parses an address) that this module stored itself with the matching Marshal; layer2 TeamReserve / basket denoms validated at creation -- audited by kind", []);
-  ("x/gov/keeper.Keeper.GetPollVotes", "must", 1%nat, "decodes bytes (or re-parses an address) that this module stored itself with the matching Marshal; layer2 TeamReserve / basket denoms validated at creation -- audited by kind", []);
-  ("x/gov/keeper.Keeper.GetProposal", "must", 1%nat, "decodes bytes (or re-parses an address) that this module stored itself with the matching Marshal; layer2 TeamReserve / basket denoms validated at creation -- audited by kind", []);
-  ("x/gov/keeper.Keeper.GetProposalVotes", "must", 1%nat, "decodes bytes (or re-parses an address) that this module stored itself with the matching Marshal; layer2 TeamReserve / basket denoms validated at creation -- audited by kind", []);
-  ("x/gov/keeper.Keeper.GetProposals", "must", 1%nat, "decodes bytes (or re-parses an address) that this module stored itself with the matching Marshal; layer2 TeamReserve / basket denoms validated at creation -- audited by kind", []);
-  ("x/gov/keeper.Keeper.GetVotes", "must", 1%nat, "decodes bytes (or re-parses an address) that this module stored itself with the matching Marshal; layer2 TeamReserve / basket denoms validated at creation -- audited by kind", []);
-  ("x/gov/keeper.Keeper.RemoveBlacklistRolePermission", "must", 1%nat, "decodes bytes (or re-parses an address) that this module stored itself with the matching Marshal; layer2 TeamReserve / basket denoms validated at creation -- audited by kind", []);
-  ("x/gov/keeper.Keeper.RemoveWhitelistRolePermission", "must", 1%nat, "decodes bytes (or re-parses an address) that this module stored itself with the matching Marshal; layer2 TeamReserve / basket denoms validated at creation -- audited by kind", []);
-  ("x/gov/keeper.Keeper.SaveCouncilor", "must", 1%nat, "decodes bytes (or re-parses an address) that this module stored itself with the matching Marshal; layer2 TeamReserve / basket denoms validated at creation -- audited by kind", []);
-  ("x/gov/keeper.Keeper.SaveNetworkActor", "must", 1%nat, "decodes bytes (or re-parses an address) that this module stored itself with the matching Marshal; layer2 TeamReserve / basket denoms validated at creation -- audited by kind", []);
-  ("x/gov/keeper.Keeper.SavePoll", "must", 1%nat, "decodes bytes (or re-parses an address) that this module stored itself with the matching Marshal; layer2 TeamReserve / basket denoms validated at creation -- audited by kind", []);
-  ("x/gov/keeper.Keeper.SavePoorNetworkMessages", "must", 1%nat, "decodes bytes (or re-parses an address) that this module stored itself with the matching Marshal; layer2 TeamReserve / basket denoms validated at creation -- audited by kind", []);
-  ("x/gov/keeper.Keeper.SaveProposal", "must", 1%nat, "decodes bytes (or re-parses an address) that this module stored itself with the matching Marshal; layer2 TeamReserve / basket denoms validated at creation -- audited by kind", []);
-  ("x/gov/keeper.Keeper.SetExecutionFee", "must", 1%nat, "decodes bytes (or re-parses an address) that this module stored itself with the matching Marshal; layer2 TeamReserve / basket denoms validated at creation -- audited by kind", []);
-  ("x/gov/keeper.Keeper.SetNetworkProperties", "must", 1%nat, "decodes bytes (or re-parses an address) that this module stored itself with the matching Marshal; layer2 TeamReserve / basket denoms validated at creation -- audited by kind", []);
+  ("x/gov/keeper.Keeper.GetNetworkProperties", "must", 1%nat, "decodes bytes (or re-parses an address) that this module stored itself with the matching Marshal -- audited by kind", []);
+  ("x/gov/keeper.Keeper.GetPermissionsForRole", "must", 1%nat, "decodes bytes (or re-parses an address) that this module stored itself with the matching Marshal -- audited by kind", []);
+  ("x/gov/keeper.Keeper.GetPoll", "must", 1%nat, "decodes bytes (or re-parses an address) that this module stored itself with the matching Marshal -- audited by kind", []);
+  ("x/gov/keeper.Keeper.GetPollVotes", "must", 1%nat, "decodes bytes (or re-parses an address) that this module stored itself with the matching Marshal -- audited by kind", []);
+  ("x/gov/keeper.Keeper.GetProposal", "must", 1%nat, "decodes bytes (or re-parses an address) that this module stored itself with the matching Marshal -- audited by kind", []);
+  ("x/gov/keeper.Keeper.GetProposalVotes", "must", 1%nat, "decodes bytes (or re-parses an address) that this module stored itself with the matching Marshal -- audited by kind", []);
+  ("x/gov/keeper.Keeper.GetProposals", "must", 1%nat, "decodes bytes (or re-parses an address) that this module stored itself with the matching Marshal -- audited by kind", []);
+  ("x/gov/keeper.Keeper.GetVotes", "must", 1%nat, "decodes bytes (or re-parses an address) that this module stored itself with the matching Marshal -- audited by kind", []);
+  ("x/gov/keeper.Keeper.RemoveBlacklistRolePermission", "must", 1%nat, "decodes bytes (or re-parses an address) that this module stored itself with the matching Marshal -- audited by kind", []);
+  ("x/gov/keeper.Keeper.RemoveWhitelistRolePermission", "must", 1%nat, "decodes bytes (or re-parses an address) that this module stored itself with the matching Marshal -- audited by kind", []);
+  ("x/gov/keeper.Keeper.SaveCouncilor", "must", 1%nat, "decodes bytes (or re-parses an address) that this module stored itself with the matching Marshal -- audited by kind", []);
+  ("x/gov/keeper.Keeper.SaveNetworkActor", "must", 1%nat, "decodes bytes (or re-parses an address) that this module stored itself with the matching Marshal -- audited by kind", []);
+  ("x/gov/keeper.Keeper.SavePoll", "must", 1%nat, "decodes bytes (or re-parses an address) that this module stored itself with the matching Marshal -- audited by kind", []);
+  ("x/gov/keeper.Keeper.SavePoorNetworkMessages", "must", 1%nat, "decodes bytes (or re-parses an address) that this module stored itself with the matching Marshal -- audited by kind", []);
+  ("x/gov/keeper.Keeper.SaveProposal", "must", 1%nat, "decodes bytes (or re-parses an address) that this module stored itself with the matching Marshal -- audited by kind", []);
+  ("x/gov/keeper.Keeper.SetExecutionFee", "must", 1%nat, "decodes bytes (or re-parses an address) that this module stored itself with the matching Marshal -- audited by kind", []);
+  ("x/gov/keeper.Keeper.SetNetworkProperties", "must", 1%nat, "decodes bytes (or re-parses an address) that this module stored itself with the matching Marshal -- audited by kind", []);
   ("x/gov/keeper.Keeper.SetRole", "panic", 1%nat, "unreachable: guards a store / codec invariant (record written together with its index)", ["a13280216693adf8"]);
-  ("x/gov/keeper.Keeper.UpsertDataRegistryEntry", "must", 1%nat, "decodes bytes (or re-parses an address) that this module stored itself with the matching Marshal; layer2 TeamReserve / basket denoms validated at creation -- audited by kind", []);
-  ("x/gov/keeper.Keeper.WhitelistRolePermission", "must", 1%nat, "decodes bytes (or re-parses an address) that this module stored itself with the matching Marshal; layer2 TeamReserve / basket denoms validated at creation -- audited by kind", []);
-  ("x/gov/keeper.Keeper.getCouncilorByKey", "must", 1%nat, "decodes bytes (or re-parses an address) that this module stored itself with the matching Marshal; layer2 TeamReserve / basket denoms validated at creation -- audited by kind", []);
-  ("x/gov/keeper.Keeper.savePermissionsForRole", "must", 1%nat, "decodes bytes (or re-parses an address) that this module stored itself with the matching Marshal; layer2 TeamReserve / basket denoms validated at creation -- audited by kind", []);
-  ("x/gov/keeper.ValidateRoleSidKey", "must", 1%nat, "decodes bytes (or re-parses an address) that this module stored itself with the matching Marshal; layer2 TeamReserve / basket denoms validated at creation -- audited by kind", []);
+  ("x/gov/keeper.Keeper.UpsertDataRegistryEntry", "must", 1%nat, "decodes bytes (or re-parses an address) that this module stored itself with the matching Marshal -- audited by kind", []);
+  ("x/gov/keeper.Keeper.WhitelistRolePermission", "must", 1%nat, "decodes bytes (or re-parses an address) that this module stored itself with the matching Marshal -- audited by kind", []);
+  ("x/gov/keeper.Keeper.getCouncilorByKey", "must", 1%nat, "decodes bytes (or re-parses an address) that this module stored itself with the matching Marshal -- audited by kind", []);
+  ("x/gov/keeper.Keeper.savePermissionsForRole", "must", 1%nat, "decodes bytes (or re-parses an address) that this module stored itself with the matching Marshal -- audited by kind", []);
+  ("x/gov/keeper.ValidateRoleSidKey", "must", 1%nat, "decodes bytes (or re-parses an address) that this module stored itself with the matching Marshal -- audited by kind", []);
   ("x/gov/keeper.getRolePermissions", "index", 1%nat, "map lookup or index bounded by the enclosing loop / length check", ["68bafff8905381e3"]);
   ("x/gov/types.CalculatePollVotes", "index", 1%nat, "map lookup or index bounded by the enclosing loop / length check", ["f6d35cce8291d236"]);
   ("x/gov/types.CalculateVotes", "index", 1%nat, "map lookup or index bounded by the enclosing loop / length check", ["b6810ce0ce180988"]);
@@ -354,72 +364,72 @@ Definition audit_table : list (string * string * nat * string * list string) := 
   ("x/layer2.ApplyUpsertDappProposalHandler.VoteEnactment", "assert", 1%nat, "proposal content assertion inside its own handler: the router dispatches on ProposalType() of the same content, so the dynamic type matches", []);
   ("x/layer2.ApplyUpsertDappProposalHandler.VotePeriod", "assert", 1%nat, "proposal content assertion inside its own handler: the router dispatches on ProposalType() of the same content, so the dynamic type matches", []);
   ("x/layer2/keeper.Keeper.AllowedAddresses", "index", 4%nat, "map lookup or index bounded by the enclosing loop / length check", ["eea763ee20a867a0"]);
-  ("x/layer2/keeper.Keeper.EndBlocker", "must", 1%nat, "decodes bytes (or re-parses an address) that this module stored itself with the matching Marshal; layer2 TeamReserve / basket denoms validated at creation -- audited by kind", []);
+  ("x/layer2/keeper.Keeper.EndBlocker", "must", 1%nat, "TeamReserve of an ACTIVE dApp: a dApp only becomes active after FinishDappBootstrap parsed the same string when premint is positive; with premint 0 and postmint positive: suspected, not reproduced (bootstrap leaves the dApp Halted)", []);
   ("x/layer2/keeper.Keeper.EndBlocker", "newcoin", 1%nat, "amount is a product/fraction of non-negative stored amounts; denom validated at creation", ["b8af367205165836"]);
   ("x/layer2/keeper.Keeper.EndBlocker", "panic", 1%nat, "premint payout of LP tokens minted at bootstrap for exactly this purpose", ["b8af367205165836"]);
-  ("x/layer2/keeper.Keeper.ExecuteDappRemove", "must", 1%nat, "decodes bytes (or re-parses an address) that this module stored itself with the matching Marshal; layer2 TeamReserve / basket denoms validated at creation -- audited by kind", []);
-  ("x/layer2/keeper.Keeper.FinishDappBootstrap", "quo", 1%nat, "guarded: drip == 0 => 1", ["cf64fcd11a9d0b24"]);
-  ("x/layer2/keeper.Keeper.FinishDappBootstrap", "newcoin", 4%nat, "amount is a product/fraction of non-negative stored amounts; denom validated at creation", ["cf64fcd11a9d0b24"]);
-  ("x/layer2/keeper.Keeper.FinishDappBootstrap", "panic", 2%nat, "mint to the layer2 module (minter) / payout of the premint just minted", ["cf64fcd11a9d0b24"]);
-  ("x/layer2/keeper.Keeper.FinishDappBootstrap", "must", 1%nat, "decodes bytes (or re-parses an address) that this module stored itself with the matching Marshal; layer2 TeamReserve / basket denoms validated at creation -- audited by kind", []);
-  ("x/layer2/keeper.Keeper.GetAllDapps", "must", 1%nat, "decodes bytes (or re-parses an address) that this module stored itself with the matching Marshal; layer2 TeamReserve / basket denoms validated at creation -- audited by kind", []);
-  ("x/layer2/keeper.Keeper.GetBridgeAccount", "must", 1%nat, "decodes bytes (or re-parses an address) that this module stored itself with the matching Marshal; layer2 TeamReserve / basket denoms validated at creation -- audited by kind", []);
-  ("x/layer2/keeper.Keeper.GetBridgeRegistrarHelper", "must", 1%nat, "decodes bytes (or re-parses an address) that this module stored itself with the matching Marshal; layer2 TeamReserve / basket denoms validated at creation -- audited by kind", []);
-  ("x/layer2/keeper.Keeper.GetDapp", "must", 1%nat, "decodes bytes (or re-parses an address) that this module stored itself with the matching Marshal; layer2 TeamReserve / basket denoms validated at creation -- audited by kind", []);
-  ("x/layer2/keeper.Keeper.GetDappOperator", "must", 1%nat, "decodes bytes (or re-parses an address) that this module stored itself with the matching Marshal; layer2 TeamReserve / basket denoms validated at creation -- audited by kind", []);
-  ("x/layer2/keeper.Keeper.GetDappOperators", "must", 1%nat, "decodes bytes (or re-parses an address) that this module stored itself with the matching Marshal; layer2 TeamReserve / basket denoms validated at creation -- audited by kind", []);
-  ("x/layer2/keeper.Keeper.GetDappSession", "must", 1%nat, "decodes bytes (or re-parses an address) that this module stored itself with the matching Marshal; layer2 TeamReserve / basket denoms validated at creation -- audited by kind", []);
-  ("x/layer2/keeper.Keeper.GetUserDappBonds", "must", 1%nat, "decodes bytes (or re-parses an address) that this module stored itself with the matching Marshal; layer2 TeamReserve / basket denoms validated at creation -- audited by kind", []);
-  ("x/layer2/keeper.Keeper.GetXAMs", "must", 1%nat, "decodes bytes (or re-parses an address) that this module stored itself with the matching Marshal; layer2 TeamReserve / basket denoms validated at creation -- audited by kind", []);
+  ("x/layer2/keeper.Keeper.ExecuteDappRemove", "must", 1%nat, "decodes bytes (or re-parses an address) that this module stored itself with the matching Marshal -- audited by kind", []);
+  ("x/layer2/keeper.Keeper.FinishDappBootstrap", "quo", 1%nat, "guarded against zero (drip == 0 => 1) but not against int64(drip) < 0: finding FinishDappBootstrap:neg-deccoin", ["cf64fcd11a9d0b24"]);
+  ("x/layer2/keeper.Keeper.FinishDappBootstrap", "newcoin", 4%nat, "REACHABLE: negative pool ratio / issuance: finding FinishDappBootstrap:neg-coin", ["cf64fcd11a9d0b24"]);
+  ("x/layer2/keeper.Keeper.FinishDappBootstrap", "panic", 2%nat, "REACHABLE: MsgCreateDappProposal validates nothing: findings FinishDappBootstrap:invalid-coins / invalid-bech32 (dapp-bootstrap histories)", ["cf64fcd11a9d0b24"]);
+  ("x/layer2/keeper.Keeper.FinishDappBootstrap", "must", 1%nat, "REACHABLE: TeamReserve is not validated at creation: finding FinishDappBootstrap:invalid-bech32", []);
+  ("x/layer2/keeper.Keeper.GetAllDapps", "must", 1%nat, "decodes bytes (or re-parses an address) that this module stored itself with the matching Marshal -- audited by kind", []);
+  ("x/layer2/keeper.Keeper.GetBridgeAccount", "must", 1%nat, "decodes bytes (or re-parses an address) that this module stored itself with the matching Marshal -- audited by kind", []);
+  ("x/layer2/keeper.Keeper.GetBridgeRegistrarHelper", "must", 1%nat, "decodes bytes (or re-parses an address) that this module stored itself with the matching Marshal -- audited by kind", []);
+  ("x/layer2/keeper.Keeper.GetDapp", "must", 1%nat, "decodes bytes (or re-parses an address) that this module stored itself with the matching Marshal -- audited by kind", []);
+  ("x/layer2/keeper.Keeper.GetDappOperator", "must", 1%nat, "decodes bytes (or re-parses an address) that this module stored itself with the matching Marshal -- audited by kind", []);
+  ("x/layer2/keeper.Keeper.GetDappOperators", "must", 1%nat, "decodes bytes (or re-parses an address) that this module stored itself with the matching Marshal -- audited by kind", []);
+  ("x/layer2/keeper.Keeper.GetDappSession", "must", 1%nat, "decodes bytes (or re-parses an address) that this module stored itself with the matching Marshal -- audited by kind", []);
+  ("x/layer2/keeper.Keeper.GetUserDappBonds", "must", 1%nat, "decodes bytes (or re-parses an address) that this module stored itself with the matching Marshal -- audited by kind", []);
+  ("x/layer2/keeper.Keeper.GetXAMs", "must", 1%nat, "decodes bytes (or re-parses an address) that this module stored itself with the matching Marshal -- audited by kind", []);
   ("x/layer2/keeper.Keeper.IsAllowedAddress", "index", 2%nat, "map lookup or index bounded by the enclosing loop / length check", ["8c863e8c50394ba0"]);
   ("x/layer2/keeper.Keeper.ResetNewSession", "newcoin", 1%nat, "amount is a product/fraction of non-negative stored amounts; denom validated at creation", ["9a120065aae3fc2a"]);
-  ("x/layer2/keeper.Keeper.ResetNewSession", "must", 1%nat, "decodes bytes (or re-parses an address) that this module stored itself with the matching Marshal; layer2 TeamReserve / basket denoms validated at creation -- audited by kind", []);
+  ("x/layer2/keeper.Keeper.ResetNewSession", "must", 1%nat, "decodes bytes (or re-parses an address) that this module stored itself with the matching Marshal -- audited by kind", []);
   ("x/layer2/keeper.Keeper.ResetNewSession", "panic", 1%nat, "unreachable: guards a store / codec invariant (record written together with its index)", ["9a120065aae3fc2a"]);
   ("x/layer2/keeper.Keeper.ResetNewSession", "index", 1%nat, "map lookup or index bounded by the enclosing loop / length check", ["9a120065aae3fc2a"]);
   ("x/layer2/keeper.Keeper.ResetNewSession", "div", 1%nat, "modulo by the number of verified operators: guarded by the emptiness check before it", ["9a120065aae3fc2a"]);
-  ("x/layer2/keeper.Keeper.SetBridgeAccount", "must", 1%nat, "decodes bytes (or re-parses an address) that this module stored itself with the matching Marshal; layer2 TeamReserve / basket denoms validated at creation -- audited by kind", []);
-  ("x/layer2/keeper.Keeper.SetBridgeRegistrarHelper", "must", 1%nat, "decodes bytes (or re-parses an address) that this module stored itself with the matching Marshal; layer2 TeamReserve / basket denoms validated at creation -- audited by kind", []);
-  ("x/layer2/keeper.Keeper.SetDapp", "must", 1%nat, "decodes bytes (or re-parses an address) that this module stored itself with the matching Marshal; layer2 TeamReserve / basket denoms validated at creation -- audited by kind", []);
-  ("x/layer2/keeper.Keeper.SetDappOperator", "must", 1%nat, "decodes bytes (or re-parses an address) that this module stored itself with the matching Marshal; layer2 TeamReserve / basket denoms validated at creation -- audited by kind", []);
-  ("x/layer2/keeper.Keeper.SetDappSession", "must", 1%nat, "decodes bytes (or re-parses an address) that this module stored itself with the matching Marshal; layer2 TeamReserve / basket denoms validated at creation -- audited by kind", []);
-  ("x/layer2/keeper.Keeper.SetXAM", "must", 1%nat, "decodes bytes (or re-parses an address) that this module stored itself with the matching Marshal; layer2 TeamReserve / basket denoms validated at creation -- audited by kind", []);
-  ("x/layer2/keeper.msgServer.MintBurnTx", "must", 1%nat, "decodes bytes (or re-parses an address) that this module stored itself with the matching Marshal; layer2 TeamReserve / basket denoms validated at creation -- audited by kind", []);
+  ("x/layer2/keeper.Keeper.SetBridgeAccount", "must", 1%nat, "decodes bytes (or re-parses an address) that this module stored itself with the matching Marshal -- audited by kind", []);
+  ("x/layer2/keeper.Keeper.SetBridgeRegistrarHelper", "must", 1%nat, "decodes bytes (or re-parses an address) that this module stored itself with the matching Marshal -- audited by kind", []);
+  ("x/layer2/keeper.Keeper.SetDapp", "must", 1%nat, "decodes bytes (or re-parses an address) that this module stored itself with the matching Marshal -- audited by kind", []);
+  ("x/layer2/keeper.Keeper.SetDappOperator", "must", 1%nat, "decodes bytes (or re-parses an address) that this module stored itself with the matching Marshal -- audited by kind", []);
+  ("x/layer2/keeper.Keeper.SetDappSession", "must", 1%nat, "decodes bytes (or re-parses an address) that this module stored itself with the matching Marshal -- audited by kind", []);
+  ("x/layer2/keeper.Keeper.SetXAM", "must", 1%nat, "decodes bytes (or re-parses an address) that this module stored itself with the matching Marshal -- audited by kind", []);
+  ("x/layer2/keeper.msgServer.MintBurnTx", "must", 1%nat, "decodes bytes (or re-parses an address) that this module stored itself with the matching Marshal -- audited by kind", []);
   ("x/layer2/keeper.msgServer.MintBurnTx", "newcoin", 1%nat, "amount is a product/fraction of non-negative stored amounts; denom validated at creation", ["cabb5ebda97b8924"]);
   ("x/layer2/keeper.msgServer.MintCreateFtTx", "newcoin", 1%nat, "amount is a product/fraction of non-negative stored amounts; denom validated at creation", ["9aadda9fdbc648ef"]);
-  ("x/layer2/keeper.msgServer.MintCreateFtTx", "must", 1%nat, "decodes bytes (or re-parses an address) that this module stored itself with the matching Marshal; layer2 TeamReserve / basket denoms validated at creation -- audited by kind", []);
+  ("x/layer2/keeper.msgServer.MintCreateFtTx", "must", 1%nat, "decodes bytes (or re-parses an address) that this module stored itself with the matching Marshal -- audited by kind", []);
   ("x/layer2/keeper.msgServer.MintCreateNftTx", "newcoin", 1%nat, "amount is a product/fraction of non-negative stored amounts; denom validated at creation", ["ba376a5f0f7d37d0"]);
-  ("x/layer2/keeper.msgServer.MintCreateNftTx", "must", 1%nat, "decodes bytes (or re-parses an address) that this module stored itself with the matching Marshal; layer2 TeamReserve / basket denoms validated at creation -- audited by kind", []);
-  ("x/layer2/keeper.msgServer.MintIssueTx", "must", 2%nat, "decodes bytes (or re-parses an address) that this module stored itself with the matching Marshal; layer2 TeamReserve / basket denoms validated at creation -- audited by kind", []);
+  ("x/layer2/keeper.msgServer.MintCreateNftTx", "must", 1%nat, "decodes bytes (or re-parses an address) that this module stored itself with the matching Marshal -- audited by kind", []);
+  ("x/layer2/keeper.msgServer.MintIssueTx", "must", 2%nat, "decodes bytes (or re-parses an address) that this module stored itself with the matching Marshal -- audited by kind", []);
   ("x/layer2/keeper.msgServer.MintIssueTx", "newcoin", 2%nat, "amount is a product/fraction of non-negative stored amounts; denom validated at creation", ["e16bce0b6f7a7382"]);
-  ("x/layer2/keeper.msgServer.TransferDappTx", "must", 1%nat, "decodes bytes (or re-parses an address) that this module stored itself with the matching Marshal; layer2 TeamReserve / basket denoms validated at creation -- audited by kind", []);
+  ("x/layer2/keeper.msgServer.TransferDappTx", "must", 1%nat, "decodes bytes (or re-parses an address) that this module stored itself with the matching Marshal -- audited by kind", []);
   ("x/multistaking/keeper.Keeper.ClaimRewards", "panic", 1%nat, "unreachable: guards a store / codec invariant (record written together with its index)", ["0cb64d180c28bba9"]);
   ("x/multistaking/keeper.Keeper.ClaimRewardsFromModule", "panic", 1%nat, "unreachable: guards a store / codec invariant (record written together with its index)", ["4cde2db996dac55d"]);
-  ("x/multistaking/keeper.Keeper.GetAllStakingPools", "must", 1%nat, "decodes bytes (or re-parses an address) that this module stored itself with the matching Marshal; layer2 TeamReserve / basket denoms validated at creation -- audited by kind", []);
-  ("x/multistaking/keeper.Keeper.GetCompoundInfoByAddress", "must", 1%nat, "decodes bytes (or re-parses an address) that this module stored itself with the matching Marshal; layer2 TeamReserve / basket denoms validated at creation -- audited by kind", []);
+  ("x/multistaking/keeper.Keeper.GetAllStakingPools", "must", 1%nat, "decodes bytes (or re-parses an address) that this module stored itself with the matching Marshal -- audited by kind", []);
+  ("x/multistaking/keeper.Keeper.GetCompoundInfoByAddress", "must", 1%nat, "decodes bytes (or re-parses an address) that this module stored itself with the matching Marshal -- audited by kind", []);
   ("x/multistaking/keeper.Keeper.GetDelegatorRewards", "panic", 1%nat, "unreachable: guards a store / codec invariant (record written together with its index)", ["759deeebf729e036"]);
-  ("x/multistaking/keeper.Keeper.GetStakingPoolByValidator", "must", 1%nat, "decodes bytes (or re-parses an address) that this module stored itself with the matching Marshal; layer2 TeamReserve / basket denoms validated at creation -- audited by kind", []);
+  ("x/multistaking/keeper.Keeper.GetStakingPoolByValidator", "must", 1%nat, "decodes bytes (or re-parses an address) that this module stored itself with the matching Marshal -- audited by kind", []);
   ("x/multistaking/keeper.Keeper.IncreasePoolRewards", "newcoin", 2%nat, "non-negative products", ["d230d63a957c9ea3"]);
   ("x/multistaking/keeper.Keeper.IncreasePoolRewards", "quo", 1%nat, "guarded: shareToken.Amount.IsZero() => continue", ["d230d63a957c9ea3"]);
   ("x/multistaking/keeper.Keeper.IncreasePoolRewards", "sub", 1%nat, "autoCompoundRewards is a sub-multiset of rewards by construction", ["d230d63a957c9ea3"]);
-  ("x/multistaking/keeper.Keeper.IncreasePoolRewards", "panic", 2%nat, "autocompound payout from the fee collector: reachable only if credited rewards exceed the collector (C04/C10 over-crediting); dead code on the pinned tree (power = 0)", ["d230d63a957c9ea3"]);
-  ("x/multistaking/keeper.Keeper.SetCompoundInfo", "must", 1%nat, "decodes bytes (or re-parses an address) that this module stored itself with the matching Marshal; layer2 TeamReserve / basket denoms validated at creation -- audited by kind", []);
-  ("x/multistaking/keeper.Keeper.SetStakingPool", "must", 1%nat, "decodes bytes (or re-parses an address) that this module stored itself with the matching Marshal; layer2 TeamReserve / basket denoms validated at creation -- audited by kind", []);
-  ("x/multistaking/keeper.Keeper.SlashStakingPool", "newcoin", 2%nat, "non-negative fractions", ["ddf46ff059e3a6ba"]);
-  ("x/multistaking/keeper.Keeper.SlashStakingPool", "sub", 3%nat, "fractions of the pool totals (slash in [0,1])", ["ddf46ff059e3a6ba"]);
-  ("x/multistaking/keeper.Keeper.SlashStakingPool", "panic", 3%nat, "burn / transfer of amounts computed as fractions (slash <= 1 after the MaxSlashingPercentage cap) of module-held stake: C10", ["ddf46ff059e3a6ba"]);
+  ("x/multistaking/keeper.Keeper.IncreasePoolRewards", "panic", 2%nat, "autocompound payout of the whole credit from the fee collector: with stake caps summing to 1 the credit exceeds the allocation by one unit (Halt.credit_two, C06_overcredit_shortfall_refuted); on the witness the shortfall surfaces in the following AllocateTokensToValidator", ["d230d63a957c9ea3"]);
+  ("x/multistaking/keeper.Keeper.SetCompoundInfo", "must", 1%nat, "decodes bytes (or re-parses an address) that this module stored itself with the matching Marshal -- audited by kind", []);
+  ("x/multistaking/keeper.Keeper.SetStakingPool", "must", 1%nat, "decodes bytes (or re-parses an address) that this module stored itself with the matching Marshal -- audited by kind", []);
+  ("x/multistaking/keeper.Keeper.SlashStakingPool", "newcoin", 2%nat, "non-negative fractions", ["ddf46ff059e3a6ba"; "3659416c5742f268"]);
+  ("x/multistaking/keeper.Keeper.SlashStakingPool", "sub", 3%nat, "fractions of the pool totals (slash in [0,1])", ["ddf46ff059e3a6ba"; "3659416c5742f268"]);
+  ("x/multistaking/keeper.Keeper.SlashStakingPool", "panic", 3%nat, "REACHABLE from SlashValidator.Apply in the gov end-blocker (proposal raised by Jail, no dry run): findings SlashStakingPool:nil-deref (keeper copy without distrKeeper) and SlashStakingPool:invalid-coins (0ukex burn); slash-proposal histories", ["ddf46ff059e3a6ba"; "3659416c5742f268"]);
   ("x/recovery/keeper.Keeper.ClaimRewards", "panic", 1%nat, "unreachable: guards a store / codec invariant (record written together with its index)", ["481ac89eced8ac7f"]);
   ("x/recovery/keeper.Keeper.GetRRTokenHolderRewards", "panic", 1%nat, "unreachable: guards a store / codec invariant (record written together with its index)", ["8279fa45ce06c49d"]);
-  ("x/recovery/keeper.Keeper.GetRecoveryToken", "must", 1%nat, "decodes bytes (or re-parses an address) that this module stored itself with the matching Marshal; layer2 TeamReserve / basket denoms validated at creation -- audited by kind", []);
+  ("x/recovery/keeper.Keeper.GetRecoveryToken", "must", 1%nat, "decodes bytes (or re-parses an address) that this module stored itself with the matching Marshal -- audited by kind", []);
   ("x/recovery/keeper.Keeper.IncreaseRecoveryTokenUnderlying", "sub", 1%nat, "sdk.Int / time subtraction or Coins.Sub guarded by an error-returning balance check before it", ["5f101af1a595a034"]);
   ("x/slashing.ApplyResetWholeValidatorRankProposalHandler.Apply", "assert", 1%nat, "proposal content assertion inside its own handler: the router dispatches on ProposalType() of the same content, so the dynamic type matches", []);
   ("x/slashing.ApplySlashValidatorProposalHandler.Apply", "assert", 1%nat, "proposal content assertion inside its own handler: the router dispatches on ProposalType() of the same content, so the dynamic type matches", []);
-  ("x/slashing/keeper.Keeper.GetValidatorSigningInfo", "must", 1%nat, "decodes bytes (or re-parses an address) that this module stored itself with the matching Marshal; layer2 TeamReserve / basket denoms validated at creation -- audited by kind", []);
+  ("x/slashing/keeper.Keeper.GetValidatorSigningInfo", "must", 1%nat, "decodes bytes (or re-parses an address) that this module stored itself with the matching Marshal -- audited by kind", []);
   ("x/slashing/keeper.Keeper.HandleValidatorSignature", "panic", 3%nat, "unreachable for votes of validators CometBFT knows through this app's updates (pubkey relation + signing info written on join); exercised by every block of the harness", ["8135aa2c67190238"]);
-  ("x/slashing/keeper.Keeper.IterateValidatorSigningInfos", "must", 1%nat, "decodes bytes (or re-parses an address) that this module stored itself with the matching Marshal; layer2 TeamReserve / basket denoms validated at creation -- audited by kind", []);
+  ("x/slashing/keeper.Keeper.IterateValidatorSigningInfos", "must", 1%nat, "decodes bytes (or re-parses an address) that this module stored itself with the matching Marshal -- audited by kind", []);
   ("x/slashing/keeper.Keeper.IterateValidatorSigningInfos", "panic", 1%nat, "unreachable: guards a store / codec invariant (record written together with its index)", ["451aff9c9e07213f"]);
-  ("x/slashing/keeper.Keeper.Jail", "assert", 1%nat, "suspected reachable (DESIGN section 6 #16: recovery rotation rewrites a slash proposal's content with the message): not reproduced here", []);
+  ("x/slashing/keeper.Keeper.Jail", "assert", 1%nat, "not reached: after the rotation rewrites the proposal content (DESIGN #16) GetProposals panics in the codec BEFORE this assertion: finding GetProposal:any-unregistered-type (recovery-rotation histories)", []);
   ("x/slashing/keeper.Keeper.JailUntil", "panic", 1%nat, "unreachable: guards a store / codec invariant (record written together with its index)", ["a6981c2b2eadd02f"]);
-  ("x/slashing/keeper.Keeper.SetValidatorSigningInfo", "must", 1%nat, "decodes bytes (or re-parses an address) that this module stored itself with the matching Marshal; layer2 TeamReserve / basket denoms validated at creation -- audited by kind", []);
+  ("x/slashing/keeper.Keeper.SetValidatorSigningInfo", "must", 1%nat, "decodes bytes (or re-parses an address) that this module stored itself with the matching Marshal -- audited by kind", []);
   ("x/spending.ApplySpendingPoolDistributionProposalHandler.AllowedAddresses", "assert", 1%nat, "proposal content assertion inside its own handler: the router dispatches on ProposalType() of the same content, so the dynamic type matches", []);
   ("x/spending.ApplySpendingPoolDistributionProposalHandler.Apply", "assert", 1%nat, "proposal content assertion inside its own handler: the router dispatches on ProposalType() of the same content, so the dynamic type matches", []);
   ("x/spending.ApplySpendingPoolDistributionProposalHandler.Apply", "index", 2%nat, "map lookups; the nil pool dereference on a missing pool is state-independent in practice (pools are never deleted) and fails the dry run", ["9893d34d54a1b63c"]);
@@ -440,40 +450,40 @@ Definition audit_table : list (string * string * nat * string * list string) := 
   ("x/spending.ApplyUpdateSpendingPoolProposalHandler.VoteEnactment", "assert", 1%nat, "proposal content assertion inside its own handler: the router dispatches on ProposalType() of the same content, so the dynamic type matches", []);
   ("x/spending.ApplyUpdateSpendingPoolProposalHandler.VotePeriod", "assert", 1%nat, "proposal content assertion inside its own handler: the router dispatches on ProposalType() of the same content, so the dynamic type matches", []);
   ("x/spending/keeper.Keeper.AllowedAddresses", "index", 4%nat, "map lookup or index bounded by the enclosing loop / length check", ["6264758094c83280"]);
-  ("x/spending/keeper.Keeper.EndBlocker", "must", 1%nat, "decodes bytes (or re-parses an address) that this module stored itself with the matching Marshal; layer2 TeamReserve / basket denoms validated at creation -- audited by kind", []);
-  ("x/spending/keeper.Keeper.GetAllSpendingPools", "must", 1%nat, "decodes bytes (or re-parses an address) that this module stored itself with the matching Marshal; layer2 TeamReserve / basket denoms validated at creation -- audited by kind", []);
+  ("x/spending/keeper.Keeper.EndBlocker", "must", 1%nat, "decodes bytes (or re-parses an address) that this module stored itself with the matching Marshal -- audited by kind", []);
+  ("x/spending/keeper.Keeper.GetAllSpendingPools", "must", 1%nat, "decodes bytes (or re-parses an address) that this module stored itself with the matching Marshal -- audited by kind", []);
   ("x/spending/keeper.Keeper.GetBeneficiaryWeight", "index", 2%nat, "map lookup or index bounded by the enclosing loop / length check", ["6a5e9d7ee8132d01"]);
-  ("x/spending/keeper.Keeper.GetClaimInfo", "must", 1%nat, "decodes bytes (or re-parses an address) that this module stored itself with the matching Marshal; layer2 TeamReserve / basket denoms validated at creation -- audited by kind", []);
-  ("x/spending/keeper.Keeper.GetPoolClaimInfos", "must", 1%nat, "decodes bytes (or re-parses an address) that this module stored itself with the matching Marshal; layer2 TeamReserve / basket denoms validated at creation -- audited by kind", []);
-  ("x/spending/keeper.Keeper.GetSpendingPool", "must", 1%nat, "decodes bytes (or re-parses an address) that this module stored itself with the matching Marshal; layer2 TeamReserve / basket denoms validated at creation -- audited by kind", []);
+  ("x/spending/keeper.Keeper.GetClaimInfo", "must", 1%nat, "decodes bytes (or re-parses an address) that this module stored itself with the matching Marshal -- audited by kind", []);
+  ("x/spending/keeper.Keeper.GetPoolClaimInfos", "must", 1%nat, "decodes bytes (or re-parses an address) that this module stored itself with the matching Marshal -- audited by kind", []);
+  ("x/spending/keeper.Keeper.GetSpendingPool", "must", 1%nat, "decodes bytes (or re-parses an address) that this module stored itself with the matching Marshal -- audited by kind", []);
   ("x/spending/keeper.Keeper.IsAllowedAddress", "index", 2%nat, "map lookup or index bounded by the enclosing loop / length check", ["3e2ff6da40835b6c"]);
   ("x/spending/keeper.Keeper.IsAllowedBeneficiary", "index", 2%nat, "map lookup or index bounded by the enclosing loop / length check", ["2107107913c16f7d"]);
-  ("x/spending/keeper.Keeper.SetClaimInfo", "must", 1%nat, "decodes bytes (or re-parses an address) that this module stored itself with the matching Marshal; layer2 TeamReserve / basket denoms validated at creation -- audited by kind", []);
-  ("x/spending/keeper.Keeper.SetSpendingPool", "must", 1%nat, "decodes bytes (or re-parses an address) that this module stored itself with the matching Marshal; layer2 TeamReserve / basket denoms validated at creation -- audited by kind", []);
-  ("x/spending/types.ValidateSpendingPoolName", "must", 1%nat, "decodes bytes (or re-parses an address) that this module stored itself with the matching Marshal; layer2 TeamReserve / basket denoms validated at creation -- audited by kind", []);
+  ("x/spending/keeper.Keeper.SetClaimInfo", "must", 1%nat, "decodes bytes (or re-parses an address) that this module stored itself with the matching Marshal -- audited by kind", []);
+  ("x/spending/keeper.Keeper.SetSpendingPool", "must", 1%nat, "decodes bytes (or re-parses an address) that this module stored itself with the matching Marshal -- audited by kind", []);
+  ("x/spending/types.ValidateSpendingPoolName", "must", 1%nat, "decodes bytes (or re-parses an address) that this module stored itself with the matching Marshal -- audited by kind", []);
   ("x/staking.ApplyUnjailValidatorProposalHandler.Apply", "assert", 1%nat, "proposal content assertion inside its own handler: the router dispatches on ProposalType() of the same content, so the dynamic type matches", []);
-  ("x/staking/keeper.Keeper.AddValidator", "must", 1%nat, "decodes bytes (or re-parses an address) that this module stored itself with the matching Marshal; layer2 TeamReserve / basket denoms validated at creation -- audited by kind", []);
-  ("x/staking/keeper.Keeper.GetPendingValidatorSet", "must", 1%nat, "decodes bytes (or re-parses an address) that this module stored itself with the matching Marshal; layer2 TeamReserve / basket denoms validated at creation -- audited by kind", []);
-  ("x/staking/keeper.Keeper.GetValidatorJailInfo", "must", 1%nat, "decodes bytes (or re-parses an address) that this module stored itself with the matching Marshal; layer2 TeamReserve / basket denoms validated at creation -- audited by kind", []);
-  ("x/staking/keeper.Keeper.GetValidatorSet", "must", 1%nat, "decodes bytes (or re-parses an address) that this module stored itself with the matching Marshal; layer2 TeamReserve / basket denoms validated at creation -- audited by kind", []);
+  ("x/staking/keeper.Keeper.AddValidator", "must", 1%nat, "decodes bytes (or re-parses an address) that this module stored itself with the matching Marshal -- audited by kind", []);
+  ("x/staking/keeper.Keeper.GetPendingValidatorSet", "must", 1%nat, "decodes bytes (or re-parses an address) that this module stored itself with the matching Marshal -- audited by kind", []);
+  ("x/staking/keeper.Keeper.GetValidatorJailInfo", "must", 1%nat, "decodes bytes (or re-parses an address) that this module stored itself with the matching Marshal -- audited by kind", []);
+  ("x/staking/keeper.Keeper.GetValidatorSet", "must", 1%nat, "decodes bytes (or re-parses an address) that this module stored itself with the matching Marshal -- audited by kind", []);
   ("x/staking/keeper.Keeper.Inactivate", "sub", 1%nat, "sdk.Int / time subtraction or Coins.Sub guarded by an error-returning balance check before it", ["9ac003aa6a758626"]);
   ("x/staking/keeper.Keeper.PauseProposalNotApprovedValidators", "index", 3%nat, "map lookup or index bounded by the enclosing loop / length check", ["66185722e22265cb"]);
-  ("x/staking/keeper.Keeper.getValidatorByKey", "must", 1%nat, "decodes bytes (or re-parses an address) that this module stored itself with the matching Marshal; layer2 TeamReserve / basket denoms validated at creation -- audited by kind", []);
-  ("x/staking/keeper.Keeper.setJailValidatorInfo", "must", 1%nat, "decodes bytes (or re-parses an address) that this module stored itself with the matching Marshal; layer2 TeamReserve / basket denoms validated at creation -- audited by kind", []);
+  ("x/staking/keeper.Keeper.getValidatorByKey", "must", 1%nat, "decodes bytes (or re-parses an address) that this module stored itself with the matching Marshal -- audited by kind", []);
+  ("x/staking/keeper.Keeper.setJailValidatorInfo", "must", 1%nat, "decodes bytes (or re-parses an address) that this module stored itself with the matching Marshal -- audited by kind", []);
   ("x/tokens.ApplyUpsertTokenInfosProposalHandler.Apply", "assert", 1%nat, "proposal content assertion inside its own handler: the router dispatches on ProposalType() of the same content, so the dynamic type matches", []);
   ("x/tokens.ApplyWhiteBlackChangeProposalHandler.Apply", "assert", 1%nat, "proposal content assertion inside its own handler: the router dispatches on ProposalType() of the same content, so the dynamic type matches", []);
   ("x/tokens/keeper.Keeper.BurnCoins", "sub", 1%nat, "sdk.Int / time subtraction or Coins.Sub guarded by an error-returning balance check before it", ["2ed9f7be1df98e38"]);
-  ("x/tokens/keeper.Keeper.GetAllTokenInfos", "must", 1%nat, "decodes bytes (or re-parses an address) that this module stored itself with the matching Marshal; layer2 TeamReserve / basket denoms validated at creation -- audited by kind", []);
-  ("x/tokens/keeper.Keeper.GetTokenBlackWhites", "must", 1%nat, "decodes bytes (or re-parses an address) that this module stored itself with the matching Marshal; layer2 TeamReserve / basket denoms validated at creation -- audited by kind", []);
-  ("x/tokens/keeper.Keeper.GetTokenInfo", "must", 1%nat, "decodes bytes (or re-parses an address) that this module stored itself with the matching Marshal; layer2 TeamReserve / basket denoms validated at creation -- audited by kind", []);
-  ("x/tokens/keeper.Keeper.SetTokenBlackWhites", "must", 1%nat, "decodes bytes (or re-parses an address) that this module stored itself with the matching Marshal; layer2 TeamReserve / basket denoms validated at creation -- audited by kind", []);
-  ("x/tokens/keeper.Keeper.UpsertTokenInfo", "must", 1%nat, "decodes bytes (or re-parses an address) that this module stored itself with the matching Marshal; layer2 TeamReserve / basket denoms validated at creation -- audited by kind", []);
+  ("x/tokens/keeper.Keeper.GetAllTokenInfos", "must", 1%nat, "decodes bytes (or re-parses an address) that this module stored itself with the matching Marshal -- audited by kind", []);
+  ("x/tokens/keeper.Keeper.GetTokenBlackWhites", "must", 1%nat, "decodes bytes (or re-parses an address) that this module stored itself with the matching Marshal -- audited by kind", []);
+  ("x/tokens/keeper.Keeper.GetTokenInfo", "must", 1%nat, "decodes bytes (or re-parses an address) that this module stored itself with the matching Marshal -- audited by kind", []);
+  ("x/tokens/keeper.Keeper.SetTokenBlackWhites", "must", 1%nat, "decodes bytes (or re-parses an address) that this module stored itself with the matching Marshal -- audited by kind", []);
+  ("x/tokens/keeper.Keeper.UpsertTokenInfo", "must", 1%nat, "decodes bytes (or re-parses an address) that this module stored itself with the matching Marshal -- audited by kind", []);
   ("x/tokens/keeper.removeTokens", "index", 2%nat, "map lookup or index bounded by the enclosing loop / length check", ["1f05d5b4a9af8ad0"]);
   ("x/ubi.ApplyRemoveUBIProposalHandler.Apply", "assert", 1%nat, "proposal content assertion inside its own handler: the router dispatches on ProposalType() of the same content, so the dynamic type matches", []);
   ("x/ubi.ApplyUpsertUBIProposalHandler.Apply", "assert", 1%nat, "proposal content assertion inside its own handler: the router dispatches on ProposalType() of the same content, so the dynamic type matches", []);
-  ("x/ubi/keeper.Keeper.GetUBIRecordByName", "must", 1%nat, "decodes bytes (or re-parses an address) that this module stored itself with the matching Marshal; layer2 TeamReserve / basket denoms validated at creation -- audited by kind", []);
+  ("x/ubi/keeper.Keeper.GetUBIRecordByName", "must", 1%nat, "decodes bytes (or re-parses an address) that this module stored itself with the matching Marshal -- audited by kind", []);
   ("x/ubi/keeper.Keeper.ProcessUBIRecord", "sub", 1%nat, "sdk.Int arithmetic: no panic", ["26285f1f55e768c8"; "6afc9f007454305b"]);
-  ("x/ubi/keeper.Keeper.SetUBIRecord", "must", 1%nat, "decodes bytes (or re-parses an address) that this module stored itself with the matching Marshal; layer2 TeamReserve / basket denoms validated at creation -- audited by kind", []);
+  ("x/ubi/keeper.Keeper.SetUBIRecord", "must", 1%nat, "decodes bytes (or re-parses an address) that this module stored itself with the matching Marshal -- audited by kind", []);
   ("x/upgrade.ApplySoftwareUpgradeProposalHandler.Apply", "assert", 1%nat, "proposal content assertion inside its own handler: the router dispatches on ProposalType() of the same content, so the dynamic type matches", []);
   ("x/upgrade/keeper.Keeper.ApplyUpgradePlan", "index", 1%nat, "map lookup or index bounded by the enclosing loop / length check", ["9972c898b1ebca59"]);
   ("x/upgrade/keeper.Keeper.SaveCurrentPlan", "panic", 1%nat, "unreachable: guards a store / codec invariant (record written together with its index)", ["2375fe2d93f5e3c7"]);
